@@ -290,6 +290,22 @@ def run(ctx, prop):
             bound_cases.append([P("in", "interface", n, "oa")])
             bound_cases.append([P("out", "IT", n, "oa"), P("in", "uint32", None, "x")])
         bound_cases.append([P("in", "OB", None, f"o{i}") for i in range(min(n, 20))])
+    # systematically: every buffer-class filler in either direction, with 0/1/2 bundled values
+    # of the same direction (they add ONE buffer) and with/without a small value in the other
+    # direction; single objects and object arrays around the bound
+    for d, od in (("in", "out"), ("out", "in")):
+        for n in (14, 15, 16):
+            for filler in (("buffer", None), ("uint32", "unbounded"), ("OB", None)):
+                for same in (0, 1, 2):
+                    for other in (0, 1):
+                        ps = [P(d, filler[0], filler[1], f"f{i}") for i in range(n)]
+                        ps += [P(d, "uint16", None, f"v{i}") for i in range(same)]
+                        ps += [P(od, "uint8", None, "w0")] * other
+                        if filler[0] == "OB" and n > 15:
+                            continue
+                        bound_cases.append(ps)
+            bound_cases.append([P(d, "interface", None, f"o{i}") for i in range(n)])
+            bound_cases.append([P(d, "IT", None, f"o{i}") for i in range(n - 1)] + [P(od, "interface", None, "z"), P(od, "interface", None, "z2")])
     for params in bound_cases:
         case = one_method(params)
         exp = mink_counts(case, case["files"][0]["nodes"][-1]["members"][0])
@@ -306,6 +322,58 @@ def run(ctx, prop):
                 st["oracle_fail"].append({"case": {"id": "bound", "counts": exp, "params": len(params)}, "failures": [
                     {"kind": "bound", "error": "accepted although a class exceeds 15" if rc == 0 else "rejected although every class fits",
                      "cli_exit": rc, "stderr": err[-200:]}]})
+    # ---- the envelopes the compiled stubs of all three backends really hand to the transport
+    # (coverage corpus: every parameter kind in both directions), against the counts and the
+    # op of the model; the transport walks the argument array by the counts word, so a stub
+    # that pushes fewer or more slots than it announces is seen as a memory error (ASan)
+    from .. import benchlib as B
+    from .bench_props import method_classes
+    for cov in (gen.coverage_case("C02-coverage"), gen.coverage_case2("C02-coverage2")):
+        # bundles that the C side reads through a padded struct (finding of C01/C03/C04, a memory
+        # error under ASan by itself) say nothing about the envelope: leave those methods out
+        for f_ in cov["files"]:
+            for n_ in f_["nodes"]:
+                if n_["k"] == "interface":
+                    n_["members"] = [m_ for m_ in n_["members"] if m_["k"] != "method" or "bundlePadding" not in method_classes(cov, m_)]
+        with C.Scratch() as tmp:
+            langs = tuple(cov.get("langs", ("c", "cpp", "rust")))
+            b, r, used = B.build_and_run(ctx, cov, os.path.join(tmp, "w"), langs=langs, valuations=1, sanitize=True)
+            ctx.bump("evaluations")
+            if not b["ok"]:
+                st["oracle_fail"].append({"case": {"id": cov["id"]}, "failures": [{"kind": "build", "error": "generated code of the coverage corpus does not build", "units": B.failed_units(b)[:2]}]})
+                continue
+            crashed = r["rc"] != 0 or not any(x.get("ev") == "end" for x in r["records"])
+            seen_methods = set()
+            for a in B.analyse(ctx, cov, b, r):
+                call = a["call"]
+                owner, m, op = B.method_of(cov, call["iface"], call["method"])
+                if a["pc"].get("optional") or a["env"] is None:
+                    continue
+                mw = B.model_wire(ctx, cov, call["iface"], m, a["plan"])
+                secs = [int(x) for x in mw.get("sections", "").split(",") if x]
+                counts = tuple(int(x) for x in mw["counts"].split(","))
+                kword = counts[0] | (counts[1] << 4) | (counts[2] << 8) | (counts[3] << 12)
+                st["hist"]["bench_envelopes"] = st["hist"].get("bench_envelopes", 0) + 1
+                seen_methods.add((call["stub"], call["method"]))
+                bad = []
+                if a["env"]["op"] != op:
+                    bad.append({"kind": "bench-op", "error": "the stub sent a different op", "expected": op, "got": a["env"]["op"]})
+                if a["env"]["k"] != kword:
+                    bad.append({"kind": "bench-counts", "error": "the stub sent a different counts word", "expected": kword, "got": a["env"]["k"]})
+                if secs == sorted(secs) and not F.CLASSIFIERS["smallObjStruct"](cov, m):
+                    d = [x for x in B.envelope_vs_model(a, mw, op) if "objects differ" in x["error"] or "no envelope" in x["error"]]
+                    bad += [dict(x, kind="bench-objects") for x in d]
+                for x in bad:
+                    st["oracle_fail"].append({"case": {"id": cov["id"], "method": idl.render_member(m).strip(), "stub": call["stub"]}, "failures": [x]})
+            if crashed:
+                lc = r.get("last_call") or {}
+                mo = B.method_of(cov, lc.get("iface"), lc.get("method")) if lc else None
+                # the three listed order findings make the transport misread the array: excuse only those
+                excused = mo is not None and any(F.CLASSIFIERS[k](cov, mo[1]) for k in ("ooBeforeOi", "embeddedObjOrder", "smallObjStruct")) and \
+                    [int(x) for x in B.model_wire(ctx, cov, lc["iface"], mo[1], next(c for c in b["plan"]["calls"] if c["iface"] == lc["iface"] and c["method"] == lc["method"])["vals"][lc.get("val", 0)]).get("sections", "0").split(",") if x] != sorted([int(x) for x in B.model_wire(ctx, cov, lc["iface"], mo[1], next(c for c in b["plan"]["calls"] if c["iface"] == lc["iface"] and c["method"] == lc["method"])["vals"][lc.get("val", 0)]).get("sections", "0").split(",") if x])
+                if not excused:
+                    st["oracle_fail"].append({"case": {"id": cov["id"], "last_call": lc}, "failures": [
+                        {"kind": "bench-crash", "error": "walking the argument array by the announced counts is a memory error / crash", "rc": r["rc"], "stderr": r.get("stderr", "")[-400:]}]})
     # every listed finding must still reproduce on the real code (else the list is stale)
     known_lines = []
     for k in F.load("C02"):
